@@ -14,26 +14,28 @@ META = {
 
 def configs(tier):
     cs = []
-    def add(sp, finish=1, **kw):
+    def add(sp, finish=1, seeds=(0,), single=0, **kw):
         kw.setdefault('strategy', 'tree'); kw.setdefault('solver_timeout_ms', 5000)
-        cs.append(Config(short(sp) + ('-fin' if finish else ''), 'C09', [sp, finish], **kw))
+        for ps in seeds:   # several root permutations: the branch-tree search explores the neighbourhood of each
+            cs.append(Config(short(sp) + ('-fin' if finish else '') + ('-r%d' % ps if ps else '') + ('-single' if single else ''), 'C09', [sp, finish, ps, single], **kw))
     if tier == 'quick':
         add(spec('sequence', 'rleja', 2, 1, 1), max_paths=40); add(spec('sequence', 'leja', 2, 1, 2), max_paths=25)
         add(spec('global', 'rleja', 2, 1, 1), max_paths=40); add(spec('global', 'clenshaw-curtis', 1, 1, 2), max_paths=25); add(spec('global', 'rleja', 2, 1, 2), max_paths=25)
-        add(spec('localp', 'localp', 1, 1, 2, order=1), max_paths=40); add(spec('localp', 'semi-localp', 2, 1, 1, order=2), max_paths=25); add(spec('localp', 'localp', 2, 2, 1, order=2), max_paths=25)
+        add(spec('localp', 'localp', 1, 1, 2, order=1), max_paths=40); add(spec('localp', 'semi-localp', 2, 1, 1, order=2), max_paths=25); add(spec('localp', 'semi-localp', 1, 1, 2, order=2), single=1, max_paths=130); add(spec('localp', 'localp', 1, 1, 2, order=2), single=1, max_paths=130); add(spec('localp', 'localp-boundary', 2, 1, 0, order=1), seeds=(0, 1), max_paths=30); add(spec('localp', 'localp', 2, 2, 1, order=2), max_paths=25)
         add(spec('localp', 'localp-zero', 1, 1, 2, order=3), max_paths=25); add(spec('localp', 'localp', 1, 1, 2, order=0), max_paths=25)
         add(spec('fourier', 'fourier', 1, 1, 1), max_paths=30); add(spec('fourier', 'fourier', 2, 1, 1), max_paths=15)
         add(spec('wavelet', 'wavelet', 1, 1, 1, order=1), max_paths=20)
     else:
         for rule in SEQUENCE_RULES:
-            add(spec('sequence', rule, 2, 1, 1), max_paths=200); add(spec('sequence', rule, 2, 2, 2), max_paths=150); add(spec('sequence', rule, 2, 1, 3), max_paths=80); add(spec('sequence', rule, 3, 1, 2, limits=2), max_paths=80)
+            add(spec('sequence', rule, 2, 1, 1), max_paths=200); add(spec('sequence', rule, 2, 1, 2), single=1, max_paths=200, seeds=(0, 1)); add(spec('sequence', rule, 2, 2, 2), max_paths=150); add(spec('sequence', rule, 2, 1, 3), max_paths=80); add(spec('sequence', rule, 3, 1, 2, limits=2), max_paths=80)
         for rule in ('rleja', 'leja', 'clenshaw-curtis', 'fejer2', 'rleja-odd', 'min-delta', 'rleja-double2', 'gauss-patterson'):
             add(spec('global', rule, 1, 1, 2), max_paths=150); add(spec('global', rule, 2, 1, 1), max_paths=150); add(spec('global', rule, 2, 1, 2), max_paths=100)
         add(spec('global', 'rleja', 2, 1, 3), max_paths=80); add(spec('global', 'rleja', 3, 1, 2), max_paths=80); add(spec('global', 'leja', 2, 2, 2, limits=2), max_paths=80)
         for rule in LOCAL_RULES:
             for order in (0, 1, 2, 3):
                 if order == 0 and rule != 'localp': continue
-                add(spec('localp', rule, 1, 1, 2, order=order), max_paths=150); add(spec('localp', rule, 2, 1, 1, order=order), max_paths=150); add(spec('localp', rule, 2, 2, 2, order=order), max_paths=60)
+                add(spec('localp', rule, 1, 1, 2, order=order), max_paths=2500, time_budget_s=900); add(spec('localp', rule, 1, 1, 2, order=order), single=1, max_paths=800); add(spec('localp', rule, 2, 1, 1, order=order), single=1, max_paths=300, seeds=(0, 1)); add(spec('localp', rule, 2, 1, 1, order=order), seeds=(0, 1, 2), max_paths=150); add(spec('localp', rule, 2, 2, 2, order=order), seeds=(0, 1, 2, 3), max_paths=60)
+                if rule == 'localp-boundary': add(spec('localp', rule, 2, 1, 0, order=order), max_paths=400); add(spec('localp', rule, 2, 1, 2, order=order, limits=2), seeds=(0, 1, 2, 3), max_paths=80)
         add(spec('localp', 'localp', 2, 1, 2, order=1, limits=2), max_paths=80)
         add(spec('fourier', 'fourier', 1, 1, 1), max_paths=60); add(spec('fourier', 'fourier', 2, 1, 1), max_paths=60); add(spec('fourier', 'fourier', 1, 1, 2), max_paths=40); add(spec('fourier', 'fourier', 3, 1, 1), max_paths=30)
         add(spec('wavelet', 'wavelet', 1, 1, 1, order=1), max_paths=60); add(spec('wavelet', 'wavelet', 2, 1, 1, order=1), max_paths=30); add(spec('wavelet', 'wavelet', 1, 1, 1, order=3), max_paths=30)
